@@ -28,3 +28,43 @@ def register(op):
             sys.setrecursionlimit(old)
         ver = tuple(magic_int2tuple(a["magic"])[:2])
         return {"tree": mcanon.tree(v, ver), "consumed": fp.tell()}
+
+
+def register2(op):
+    import marshal
+
+    @op
+    def marsh_roundtrip(a):
+        """xdis.marsh against this host's marshal on eval(expr)"""
+        import xdis.marsh as XM
+        v = eval(a["expr"])
+        out = {"value": mcanon.tree(v)}
+        try:
+            d = XM.dumps(v)
+            out["xdumps"] = d.hex() if isinstance(d, (bytes, bytearray)) else "NOT-BYTES:%s" % type(d).__name__
+            try:
+                out["host_loads"] = mcanon.tree(marshal.loads(d))
+            except Exception as e:  # noqa
+                out["host_loads_err"] = type(e).__name__
+        except Exception as e:  # noqa
+            out["xdumps_err"] = type(e).__name__
+        out["host_dumps4"] = marshal.dumps(v, 4).hex()
+        for ver in (0, 1):
+            try:
+                hd = marshal.dumps(v, ver)
+                out["host_dumps%d" % ver] = hd.hex()
+                try:
+                    out["xloads%d" % ver] = mcanon.tree(XM.loads(hd))
+                except Exception as e:  # noqa
+                    out["xloads%d_err" % ver] = type(e).__name__ + ":" + str(e)[:60]
+            except ValueError:
+                pass
+        return out
+
+
+_reg1 = register
+
+
+def register(op):  # noqa: F811
+    _reg1(op)
+    register2(op)
